@@ -37,7 +37,23 @@ class D4:
     d: object = 0
 
 
-NS = dict(datetime=datetime, math=math, OrderedDict=OrderedDict, PurePosixPath=PurePosixPath,
+class FixedOffset(datetime.tzinfo):
+    """a user time zone as in the Python documentation (no __repr__ of its own)"""
+
+    def __init__(self, minutes, name="X"):
+        self._off, self._name = datetime.timedelta(minutes=minutes), name
+
+    def utcoffset(self, dt):
+        return self._off
+
+    def tzname(self, dt):
+        return self._name
+
+    def dst(self, dt):
+        return datetime.timedelta(0)
+
+
+NS = dict(FixedOffset=FixedOffset, datetime=datetime, math=math, OrderedDict=OrderedDict, PurePosixPath=PurePosixPath,
           DA=DA, DB=DB, DC=DC, D0=D0, D4=D4)
 
 ATOMS = [
@@ -61,6 +77,9 @@ ATOMS += [
     "1633837924", "'abcd'",     # 0x61626364
     "1.2926117907728089e+161", "'abcdefgh'",   # struct.pack('!d', x) == b'abcdefgh'
     "'\\x00\\x00\\x00\\x01'", "'4607182418800017408'", "'1.0'", "'True'",
+    "datetime.datetime(2020, 1, 2, 3, 4, 5, tzinfo=FixedOffset(60))", "datetime.datetime(2020, 1, 2, 3, 4, 5, tzinfo=FixedOffset(120))",
+    "datetime.time(3, 4, tzinfo=FixedOffset(60))", "datetime.datetime(2020, 1, 2, 3, 4, 5, tzinfo=datetime.timezone.utc)",
+    "'caf\\udce9'", "'\\ud800'",   # lone surrogates (a file name decoded with surrogateescape)
 ]
 SMALL = ["None", "0", "1", "''", "'a'", "1.5", "True"]
 TINY = ["None", "0", "''", "'a'"]
